@@ -3,6 +3,7 @@ import Grexv.Props.C10
 
 import Grexv.Lemmas.Lex
 import Grexv.Lemmas.EndToEnd
+import Grexv.Props.C03
 
 /-!
 # C01 — soundness: the generated regex matches every test case (stage lemmas)
@@ -94,9 +95,9 @@ theorem class_member_lexes (c : Nat) (h : c < 128) :
 pattern the regex parser builds from the returned text (with or without capturing groups); the empty test
 case is the one exception (known finding D1, see `C02.default_exact`) -/
 theorem default_sound (cap : Bool) (env : Env) (ws : List Str) (st : Stages)
-    (h : regExpFrom (cfgPlain cap) env ws = .ok st) (hseg : ∀ w ∈ ws, Grexv.SegOK env w)
+    (h : regExpFrom (cfgPlain cap false) env ws = .ok st) (hseg : ∀ w ∈ ws, Grexv.SegOK env w)
     (t : Str) (ht : t ∈ ws) (hne : t ≠ []) :
-    ∃ P, Spec.parse (fmtRegExp (cfgPlain cap) st.finalAst) = some (⟨false, false⟩, P) ∧ Spec.fullMatch false P t = true := by
+    ∃ P, Spec.parse (fmtRegExp (cfgPlain cap false) st.finalAst) = some (⟨false, false⟩, P) ∧ Spec.fullMatch false P t = true := by
   have hsc : ∀ c ∈ t, Scalar c := by
     obtain ⟨h1, h2⟩ := hseg t ht
     intro c hc
@@ -105,5 +106,24 @@ theorem default_sound (cap : Bool) (env : Env) (ws : List Str) (st : Stages)
     exact (h1 p hp).2 c hcp
   obtain ⟨P, hP, hm⟩ := Grexv.default_exact cap env ws st h hseg ⟨t, ht, hne⟩ t hsc
   exact ⟨P, hP, hm.mpr ⟨ht, hne⟩⟩
+
+/-- **C01 for the model, class options and `-e`, all inputs** for every subset of the six class options, with or
+without capturing groups and `\u{…}` escaping (no surrogate pairs): every non-empty test case is matched in full by the
+pattern the regex parser builds from the returned text -/
+theorem sound_with_classes_and_escaping (cfg : Config) (hp : PlainPrintCI cfg) (hci : cfg.ci = false) (env : Env)
+    (ws : List Str) (st : Stages) (h : regExpFrom cfg env ws = .ok st) (hseg : ∀ w ∈ ws, Grexv.SegOK env w)
+    (t : Str) (ht : t ∈ ws) (hne : t ≠ []) :
+    ∃ P, Spec.parse (fmtRegExp cfg st.finalAst) = some (⟨false, false⟩, P) ∧ Spec.fullMatch false P t = true := by
+  have hsc : ∀ c ∈ t, Scalar c := by
+    obtain ⟨h1, h2⟩ := hseg t ht
+    intro c hc
+    rw [← h2] at hc
+    obtain ⟨p, hp, hcp⟩ := List.mem_flatten.mp hc
+    exact (h1 p hp).2 c hcp
+  have hst : storedCases cfg env ws = ws := by simp [storedCases, hci]
+  have := Props.C03.classes_exact_all cfg hp env ws st h (by rw [hst]; exact hseg) (by rw [hst]; exact ⟨t, ht, hne⟩) t hsc
+  rw [hst, hci] at this
+  obtain ⟨P, hP, hm⟩ := this
+  exact ⟨P, hP, hm.mpr ⟨t, ht, hne, Props.C03.generalises_self cfg t⟩⟩
 
 end Grexv.Props.C01
